@@ -71,7 +71,7 @@ func runPairCases(c *Ctx, module, dataFile string, recs []map[string]interface{}
 func checkC12(c *Ctx) {
 	n := 200
 	if !c.Quick() {
-		n = 4000
+		n = 15000
 	}
 	r := NewRand(c.Seed*6151 + 12)
 	fc := FileCfg{MaxTops: 4, Inline: true, AutoInline: false, MapScripts: true,
